@@ -50,6 +50,11 @@ class Campaign(cppcamp.FullCampaign):
         if res['encN'] != res['encL']:
             return ("C++ native encoding differs from little-endian on a little-endian host",
                     {'native': res['encN'].hex(), 'little': res['encL'].hex()})
+        if op == 'dec' and 'rok' in res and (not res['rok'] or res['rencL'] != res['encL']):
+            # the same valid bytes decoded into an object that already held another message of this type
+            return ("C++ decode of valid bytes into a previously used object %s" % (
+                "yields a different message" if res['rok'] else "is refused"),
+                {'reused_reencoded': res.get('rencL', b'').hex(), 'fresh_reencoded': res['encL'].hex()})
         return None
 
 
